@@ -27,7 +27,8 @@ PROBES = ["kill_inside_copy", "kill_between_files", "kill_holding_lock", "load_d
           "load_after_crash", "torn_prefix_delivered", "two_populators_overlap", "partnered_load",
           "load_found_version_missing_then_recovered", "kill_inside_timestamp_write", "s1_enum_kill_beyond_last_step",
           "populator_interrupted_by_io_error", "waiter_gave_up_at_timeout", "load_not_judged_lock_timeout",
-          "s5_refresh_overlaps_populator", "s5_load_overlaps_refresh"]
+          "s5_refresh_overlaps_populator", "s5_load_overlaps_refresh", "load_retried_in_same_process",
+          "hung_holder_then_killed", "interval_truth_checked", "tz_not_utc", "tmp_on_other_device"]
 RULE = ("Runs 0..S1_N-1 enumerate every crash point (kill before step k, plain and with a torn variant of a pending "
         "write, k = 0..139; probe s1_enum_kill_beyond_last_step shows the enumeration passed the last step) of the "
         "population of one (quick) / six (thorough) fixed file subsets, each followed by fresh loads of every file "
@@ -52,7 +53,11 @@ COMPONENTS = {
 ASSUMPTIONS = [
     "crash model is process kill: bytes delivered by an executed write step stay, un-issued writes are lost, rename is atomic",
     "non-faulty processes take <= 2 ms of simulated time per file operation, so a population fits inside the 1 s lock timeout; "
-    "O-load is not asserted for loaders that overlapped an injected stall or clock jump",
+    "O-load is not asserted for a load attempt that waited out the whole lock timeout (the holder was stalled beyond the assumption)",
+    "module-level state of the cache modules (dicts, sets, lru_caches) is per-process: it is put back to its fresh-interpreter "
+    "value when a run starts and whenever a simulated process starts; os.getpid() returns the simulated process id",
+    "the temp directory is another file system in half of the runs (rename across the boundary fails with EXDEV); the local time "
+    "zone is a per-run knob",
     "flock model: one exclusive lock per path per open file description, released on close or process death",
     "interleavings are explored at file-operation granularity only",
 ]
@@ -90,8 +95,52 @@ def _init_worker():
     _W["with_standard"] = {"HED_score_1.1.0.xml": "8.2.0", "HED_score_2.0.0.xml": "8.3.0",
                            "HED_testlib_2.0.0.xml": "8.2.0", "HED_testlib_2.1.0.xml": "8.2.0",
                            "HED_testlib_3.0.0.xml": "8.2.0"}
+    _W["globals0"] = _snapshot_globals([hed_cache, hed_cache_lock, schema_util])
     _check_lock_stub_against_real(base)
     return _W
+
+
+def _snapshot_globals(mods):
+    """Module-level mutable containers of the cache modules as they are in a fresh interpreter.  Simulated processes are
+    threads of one interpreter; anything a module remembers at module level (a dict, a set, an lru_cache) is per-process
+    state in reality, so it is put back to this snapshot when a run starts and whenever a simulated process starts."""
+    import copy
+    snap = []
+    for m in mods:
+        for name, v in sorted(vars(m).items()):
+            if name.startswith("__"):
+                continue
+            if type(v) in (dict, list, set):
+                try:
+                    snap.append((m, name, v, copy.deepcopy(v)))
+                except Exception:  # noqa
+                    pass
+    return {"containers": snap, "mods": mods}
+
+
+def _reset_process_globals(W):
+    g0 = W["globals0"]
+    for m, name, obj, val in g0["containers"]:
+        import copy
+        if type(obj) is dict:
+            obj.clear()
+            obj.update(copy.deepcopy(val))
+        elif type(obj) is list:
+            obj[:] = copy.deepcopy(val)
+        else:
+            obj.clear()
+            obj.update(copy.deepcopy(val))
+        if getattr(m, name, None) is not obj:
+            setattr(m, name, obj)
+    for m in list(g0["mods"]) + [W["hed_schema_io"]]:
+        for name, v in list(vars(m).items()):
+            cc = getattr(v, "cache_clear", None)
+            if callable(cc) and not isinstance(v, type):
+                cc()
+            elif not name.startswith("__") and name not in [c[1] for c in g0["containers"] if c[0] is m] \
+                    and m is not W["hed_schema_io"] and type(v) in (dict, list, set):
+                # a container that did not exist in the fresh module: created at run time, so drop its content
+                v.clear()
 
 
 def _check_lock_stub_against_real(base):
@@ -176,7 +225,9 @@ def _knobs(g):
     return {"chunk": g.pick([4096, 16384, 65536, 262144, 1 << 20]),
             "bufsize": g.pick([16384, 65536, 131072, 262144, 1 << 20]),
             "permute": g.chance(0.5), "proxy_reads": g.chance(0.6),
-            "sched_seed": g.randrange(1 << 30)}
+            "sched_seed": g.randrange(1 << 30),
+            # environment: local time zone (seconds west of UTC) and whether the temp directory is another file system
+            "tz": g.pick([0, 0, -7200, 18000, -19800, 28800]), "tmp_dev": g.chance(0.5)}
 
 
 def _file_subset(g, lo=2, hi=5):
@@ -193,6 +244,22 @@ def _dur(g):
 
 def _proc(g, kind, **args):
     return {"kind": kind, "args": args, "dur": _dur(g), "start": round(g.uniform(0, 0.02), 5), "faults": []}
+
+
+def _hung_then_killed(g, procs, files):
+    pops = [p for p in procs if p["kind"] == "populate"]
+    if not pops:
+        return
+    a = pops[0]
+    a["start"] = 0.0
+    k = g.randrange(3, 12 * len(files))
+    a["faults"] = [{"kind": "stall", "step": k, "dur": round(g.uniform(1.3, 2.5), 3)},
+                   {"kind": "kill", "step": k + g.randrange(1, 4), "torn": g.pick([None, 0.5])}]
+    for p in procs:
+        if p["kind"] == "load":
+            p["start"] = round(g.uniform(0.001, 0.2), 5)
+            p["args"]["retries"] = 1
+            p["args"]["retry_wait"] = round(g.uniform(1.5, 4.0), 3)
 
 
 def generate(run_index, seed, tier):
@@ -255,6 +322,10 @@ def generate(run_index, seed, tier):
             p = g.pick(procs)
             p["faults"].append({"kind": "stall", "step": g.randrange(0, 25 * len(files)),
                                 "dur": round(g.uniform(0.1, 3.0), 3)})
+        if g.chance(0.25):
+            # a process that hangs while it holds the lock and is then killed (by an operator, the OOM killer, ...):
+            # waiters time out meanwhile; a loader that tries again afterwards in the SAME process must succeed
+            _hung_then_killed(g, procs, files)
         phases.append({"procs": procs, "gap": round(g.uniform(0, 3), 3)})
         phases.append({"procs": [_proc(g, "load", version=version_of(f)) for f in g.subset(files, 1, 2)], "gap": 0.0})
     elif fam == "S3":
@@ -294,6 +365,8 @@ def generate(run_index, seed, tier):
                 p = g.pick(procs)
                 p["faults"].append({"kind": "stall", "step": g.randrange(0, 25 * len(files)),
                                     "dur": round(g.uniform(0.1, 2.0), 3)})
+            if g.chance(0.2):
+                _hung_then_killed(g, procs, files)
             phases.append({"procs": procs, "gap": g.pick([0.0, 0.5, 5.0, 2000.0])})
         phases.append({"procs": [_proc(g, "load", version=version_of(f)) for f in files], "gap": 0.0})
     else:  # S4
@@ -391,7 +464,8 @@ def shrink(sc):
 class _Env:
     """Binds the library's seams to this run's simulator; restores everything on exit."""
 
-    def __init__(self, W, sim, fs, root, peer, lockworld, events):
+    def __init__(self, W, sim, fs, root, peer, lockworld, events, tz=0):
+        self.tz = tz
         self.W, self.sim, self.fs, self.root = W, sim, fs, root
         self.peer, self.lockworld, self.events = peer, lockworld, events
         self.saved = []
@@ -405,7 +479,9 @@ class _Env:
         hc, hl, hio, su = W["hed_cache"], W["hed_cache_lock"], W["hed_schema_io"], W["schema_util"]
         self._set(hc, "INSTALLED_CACHE_LOCATION", os.path.join(self.root, "installed"))
         self._set(hc, "HED_CACHE_DIRECTORY", os.path.join(self.root, "cache"))
-        self._set(hl, "time", stubs.FakeTimeModule(sim))
+        self._set(hl, "time", stubs.FakeTimeModule(sim, tz_west=self.tz))
+        # process identity: every simulated process has its own pid (they are threads of one interpreter)
+        self._set(os, "getpid", lambda: 4000 + (sim.current().pid if sim.current() is not None else 0))
         self._set(hl, "portalocker", stubs.make_fake_portalocker(self.lockworld, default_timeout=5.0))
         self._set(hc, "make_url_request", self.peer.make_url_request)
         self._set(su, "make_url_request", self.peer.make_url_request)
@@ -441,7 +517,11 @@ class _Env:
             pid = p.pid if p else -1
             s = sim.record("cl-exit-called", fs_rel(self.fs, lock_self.cache_folder))
             events.append({"ev": "exit-called", "pid": pid, "dir": lock_self.cache_folder, "seq": s, "obj": id(lock_self)})
-            return orig_exit(lock_self, *a)
+            r = orig_exit(lock_self, *a)
+            s2 = sim.record("cl-exit-returned", fs_rel(self.fs, lock_self.cache_folder))
+            events.append({"ev": "exit-returned", "pid": pid, "dir": lock_self.cache_folder, "seq": s2, "seq_call": s,
+                           "obj": id(lock_self), "wall": sim.now, "write_time": lock_self.write_time})
+            return r
 
         self._set(hl.CacheLock, "__enter__", enter)
         self._set(hl.CacheLock, "__exit__", exit_)
@@ -509,14 +589,27 @@ def _actor(kind, args, W, sim, root, peer):
     hc, hl, hio = W["hed_cache"], W["hed_cache_lock"], W["hed_schema_io"]
     cache = os.path.join(root, "cache")
     if kind == "populate":
-        return lambda: ("populate", hc.cache_local_versions(cache))
+        def populate():
+            _reset_process_globals(W)
+            return ("populate", hc.cache_local_versions(cache))
+        return populate
     if kind == "load":
         def load():
-            s = hio.load_schema_version(args["version"])
-            return ("load", s)
+            _reset_process_globals(W)
+            from hed.errors.exceptions import HedFileError
+            for attempt in range(int(args.get("retries", 0)) + 1):
+                W["attempt_seq"][sim.current().pid] = sim.record("load-attempt", None, attempt)
+                try:
+                    s = hio.load_schema_version(args["version"])
+                    return ("load", s)
+                except (HedFileError, hl.CacheException):
+                    if attempt == int(args.get("retries", 0)):
+                        raise
+                    sim.sleep(args.get("retry_wait", 2.0))      # the same process tries again a little later
         return load
     if kind == "refresh":
         def refresh():
+            _reset_process_globals(W)
             peer.up = bool(args.get("net"))
             n0 = len(peer.requests)
             r = hc.cache_xml_versions(cache_folder=cache)
@@ -551,7 +644,9 @@ def execute(sc, script=None):
     decider = Decider(sc["sched_seed"], script)
     sim = Sim(decider, max_steps=200000)
     fs = SimFS(sim, [root], chunk=sc["chunk"], copy_bufsize=sc["bufsize"], permute_listing=sc["permute"],
-               proxy_reads=sc["proxy_reads"])
+               proxy_reads=sc["proxy_reads"], devices=(["tmp"] if sc.get("tmp_dev") else []))
+    _reset_process_globals(W)
+    W["attempt_seq"] = {}
     lockworld = stubs.LockWorld(sim, rel=lambda p: fs_rel(fs, p))
     peer = stubs.Peer(sim, _peer_files(W, sc))
     peer.up = bool(sc.get("net_up"))
@@ -566,7 +661,7 @@ def execute(sc, script=None):
 
     cache = os.path.join(root, "cache")
     try:
-        with fs, _Env(W, sim, fs, root, peer, lockworld, events):
+        with fs, _Env(W, sim, fs, root, peer, lockworld, events, tz=sc.get("tz", 0)):
             for pi, ph in enumerate(sc["phases"]):
                 t_phase = sim.now
                 for spec in ph["procs"]:
@@ -603,6 +698,14 @@ def execute(sc, script=None):
         faults["net_partition_hit"] = n_net_down
     if sc.get("enumerated") and not sim.fired.get("kill"):
         probe("s1_enum_kill_beyond_last_step")     # the enumeration ran past the populator's last step: it is complete
+    if sc.get("tz"):
+        probe("tz_not_utc")
+    if sc.get("tmp_dev"):
+        probe("tmp_on_other_device")
+    for (_pi, spec_, p_) in procs_meta:
+        fk = [f["kind"] for f in spec_["faults"]]
+        if "stall" in fk and "kill" in fk and p_.state == "killed" and sim.fired.get("stall"):
+            probe("hung_holder_then_killed")
     overlap = probes.get("two_procs_overlap", 0)
     hist = [list(h) for h in sim.history]
     seen = set()
@@ -710,15 +813,20 @@ def _check_history(W, sc, sim, events, procs_meta, violations, probe, lockworld,
                 probe("load_after_crash")
             if p.state in ("killed", "aborted"):
                 continue
-            # relaxation (stated in ASSUMPTIONS): a loader whose phase saw a stall or clock jump is not judged
             phase_faulted = any(h[3] in ("STALL", "JUMP") for h in hist
                                 if any(q.pid == h[1] for (pj, _, q) in procs_meta if pj == pi))
             if phase_faulted:
-                probe("load_not_judged_because_of_stall_or_jump")
-                continue
+                probe("load_judged_in_phase_with_stall_or_jump")
+            # relaxation (stated in ASSUMPTIONS): the final attempt of a loader is not judged when it waited out the full lock
+            # timeout - the lock was held by a live (stalled) process for longer than the timing assumption allows
+            a_seq = W["attempt_seq"].get(p.pid, 0)
+            if spec["args"].get("retries"):
+                probe("load_with_retry")
+                if sum(1 for h in hist if h[1] == p.pid and h[3] == "load-attempt") > 1:
+                    probe("load_retried_in_same_process")
             if p.state == "failed" and any(ev["ev"] == "enter-raised" and ev["pid"] == p.pid and ev["exc"] == "CacheException"
+                                           and ev["seq0"] > a_seq
                                            and "Could not lock" in ev["msg"] and ev["t1"] - ev["t0"] >= 0.99 for ev in events):
-                # the lock was held by a live process for longer than the lock timeout: outside the timing assumption
                 probe("load_not_judged_lock_timeout")
                 continue
             if p.state == "failed":
@@ -836,6 +944,47 @@ def _check_history(W, sc, sim, events, procs_meta, violations, probe, lockworld,
                 violations.append(Violation(
                     "O-interval", "a refresh entered the cache lock %.3f s after the recorded refresh time (threshold %d s)"
                     % (t - e["stamp0"], hl.CACHE_TIME_THRESHOLD), "refresh-not-skipped").record(PROP))
+            else:
+                skipped_pids.add(e["pid"])
+    # ---- O-interval, second reading: the refresh time is what the clock showed when the last COMPLETED refresh section
+    # was entered (the oracle's own record, not the content of last_update.txt - a timestamp written in another
+    # representation than the one read back must not defeat the interval)
+    def _enter_clock(e):
+        reads = [h for h in hist if h[1] == e["pid"] and h[3] == "clock-read" and h[0] > e["seq0"]]
+        return (reads[0][5], max(reads[0][0], e["seq"])) if reads else (None, None)
+    completed = []
+    for x in events:
+        if x["ev"] == "exit-returned" and x.get("write_time"):
+            ent = [e for e in events if e["ev"] == "enter-returned" and e["pid"] == x["pid"] and e["obj"] == x["obj"]
+                   and e["seq"] < x["seq"]]
+            if ent:
+                t1, _ = _enter_clock(ent[-1])
+                if t1 is not None:
+                    completed.append((x["seq"], x["dir"], t1))
+    for e in events:
+        if e["ev"] not in ("enter-raised", "enter-returned") or not e.get("write_time") or jumped:
+            continue
+        if e.get("exc") in ("ProcessKilled", "SimAbort"):
+            continue
+        prior = [c for c in completed if c[1] == e["dir"] and c[0] < e["seq0"]]
+        if not prior:
+            continue
+        last = max(prior)
+        t, seq_t = _enter_clock(e)
+        if t is None:
+            continue
+        touched = any(last[0] < h[0] < seq_t and h[4] and str(h[4]).endswith("last_update.txt")
+                      and (h[3] in ("write", "torn-write", "remove", "unlink", "replace", "rename", "truncate")
+                           or (h[3] == "open" and any(ch in str(h[5]) for ch in "wax+"))) for h in hist)
+        if touched:
+            continue
+        probe("interval_truth_checked")
+        if 0 <= t - last[2] < hl.CACHE_TIME_THRESHOLD - 0.5:
+            if e["ev"] == "enter-returned" or e.get("exc") != "CacheException":
+                violations.append(Violation(
+                    "O-interval", "a refresh entered the cache lock %.3f s after the previous completed refresh was started "
+                    "(threshold %d s; last_update.txt holds %r)" % (t - last[2], hl.CACHE_TIME_THRESHOLD, e.get("stamp0")),
+                    "refresh-not-skipped").record(PROP))
             else:
                 skipped_pids.add(e["pid"])
     for (pi, spec, p) in procs_meta:
